@@ -68,6 +68,8 @@ struct InFlight {
     result: Arc<Mutex<Option<Result<(), String>>>>,
     pay_ok: Option<bool>,
     notified_before: u64,
+    /// the proof of payment the delivery carried
+    proof: Option<ProofOfPayment>,
 }
 
 struct World<'a> {
@@ -86,6 +88,10 @@ struct World<'a> {
     pad_owners: Vec<bls::SecretKey>,
     tx_owners: Vec<bls::SecretKey>,
     reg_owners: Vec<bls::SecretKey>,
+    /// proof and address of the last fully valid paid upload that was accepted
+    last_good_proof: Option<(ProofOfPayment, Vec<u8>)>,
+    /// the proof built by the last call of `build`
+    last_built_proof: Option<ProofOfPayment>,
     writer: bls::SecretKey,
     stranger: bls::SecretKey,
     rewards: RewardsAddress,
@@ -155,6 +161,8 @@ impl<'a> World<'a> {
             reg_owners: (0..2)
                 .map(|i| if i == 0 && plan.big_registers { data::big_register_owner() } else { data::bls_key(s, 300 + i) })
                 .collect(),
+            last_good_proof: None,
+            last_built_proof: None,
             writer: data::bls_key(s, 400),
             stranger: data::bls_key(s, 401),
             rewards,
@@ -365,8 +373,22 @@ impl<'a> World<'a> {
         let presented = self.presented_key(d);
         let mismatch = presented != true_key;
         let prior = self.model.get(&true_key).cloned();
-        let pay_ok = d.pay.as_ref().map(|p| self.pay_conditions(p));
-        let proof = d.pay.as_ref().map(|p| self.build_proof(p, &true_key));
+        // a proof that was paid, verified and credited for ANOTHER address, presented again unchanged
+        let reused: Option<ProofOfPayment> = match (&d.pay, &self.last_good_proof) {
+            (Some(p), Some((proof, k0))) if p.reuse && *k0 != true_key => Some(proof.clone()),
+            _ => None,
+        };
+        let pay_ok = d.pay.as_ref().map(|p| if reused.is_some() { Err("proof_of_an_earlier_upload_reused") } else { self.pay_conditions(p) });
+        let proof = match (&d.pay, reused) {
+            (Some(_), Some(r)) => {
+                self.proof_hashes.push(r.peer_quotes.iter().map(|(_, q)| q.hash()).collect());
+                self.rep.probe("proof_of_an_earlier_upload_presented_for_other_data");
+                Some(r)
+            }
+            (Some(p), None) => Some(self.build_proof(p, &true_key)),
+            _ => None,
+        };
+        self.last_built_proof = proof.clone();
         let kind = d.kind;
         let replicated = d.entry == 2;
         let uid = self.delivered as u32;
@@ -507,14 +529,18 @@ impl<'a> World<'a> {
                                 self.stranger.clone()
                             }
                         };
-                        data::register_op(&base, *id, &sk)
+                        // in big-register runs the entries of a delivery's own ops sort after nearly all ops of the
+                        // shared block (ops are ordered by entry bytes): what is new in a delivery sits at the END of
+                        // its op set
+                        let n = if self.plan.big_registers && d.who % 2 == 0 { 0xF0 + *id } else { *id };
+                        data::register_op(&base, n, &sk)
                     })
                     .collect();
                 let mut ops = ops;
                 if self.plan.big_registers && d.who % 2 == 0 {
                     // a share of the owner's pre-signed block: deliveries overlap in most of it and differ in the tail,
                     // so two of them hold more than half the entry limit each while their union stays below it
-                    let n = 505 + 3 * (d.counter as u32 % 6);
+                    let n = 560 + 8 * (d.counter as u32 % 6);
                     ops.extend(data::big_block(&base, n));
                     self.rep.probe("big_register_delivered");
                 }
@@ -1067,6 +1093,9 @@ impl<'a> World<'a> {
                 }
                 if notified && ok {
                     self.rep.probe("payment_received_notified");
+                    if let Some(p) = &f.proof {
+                        self.last_good_proof = Some((p.clone(), f.true_key.clone()));
+                    }
                 }
             }
         }
@@ -1292,6 +1321,7 @@ impl<'a> World<'a> {
             result: result.clone(),
             pay_ok,
             notified_before: self.host.payments_notified,
+            proof: self.last_built_proof.take(),
         });
         match d.entry {
             0 => {
